@@ -158,14 +158,21 @@ func HeapOps() {
 	f := heapz.New[int](0, less)
 	var hs []*handle
 	hs = append(hs, &handle{e: f.Push(vx.Int("foreign")), live: true, own: false})
-	n0 := vx.Choose(vx.Param("init", 3) + 1)
+	n0 := vx.Param("fixedinit", 0)
+	if n0 == 0 {
+		n0 = vx.Choose(vx.Param("init", 3) + 1)
+	}
 	for i := 0; i < n0; i++ {
 		hs = append(hs, &handle{e: h.Push(vx.Int("e")), live: true, own: true})
 	}
 	checkHandles(&h, &f, hs)
 	nops := vx.Param("ops", 2)
 	for step := 0; step < nops; step++ {
-		switch vx.Choose(7) {
+		op := vx.Choose(7)
+		if vx.Param("onlyremovefix", 0) == 1 {
+			op = 3 + op%2
+		}
+		switch op {
 		case 0:
 			hs = append(hs, &handle{e: h.Push(vx.Int("x")), live: true, own: true})
 		case 1:
@@ -280,6 +287,20 @@ func checkHandles(h, f *heapz.Heap[int], hs []*handle) {
 	if e := h.Peek(); e != nil {
 		vx.Assert(noneBefore(e.Value, values(live)), "the top of the heap precedes-or-ties every live element (heap order)")
 	}
+	// full heap order through the handles' indices: no element precedes its parent
+	byIdx := make([]*handle, len(live))
+	for _, x := range live {
+		if i := x.e.Index(); i >= 0 && i < len(live) {
+			byIdx[i] = x
+		}
+	}
+	ord := true
+	for i := 1; i < len(byIdx); i++ {
+		if byIdx[i] != nil && byIdx[(i-1)/2] != nil {
+			ord = vx.And(ord, !less(byIdx[i].e.Value, byIdx[(i-1)/2].e.Value))
+		}
+	}
+	vx.AssertSig(ord, "the heap order holds between every element and its parent after every call", "heap-order")
 }
 
 // container for the generic functions
